@@ -87,7 +87,7 @@ package hub
 
 //@ func (h *Hub).CancelPairingWithSKI(ski) entry [C15,C10]
 //@   ensures [C10,C01] D3-aborted: @K() in old(h.connections) ==> old(h.connections[@K()]).$abortCalls == old(h.connections[@K()].$abortCalls) + 1
-//@   ensures [C10] D3-untrusted: @K() in h.remoteServices && !h.remoteServices[@K()].trusted && h.remoteServices[@K()].connectionStateDetail.state == api.ConnectionStateNone
+//@   ensures [C10,C01] D3-untrusted: @K() in h.remoteServices && !h.remoteServices[@K()].trusted && h.remoteServices[@K()].connectionStateDetail.state == api.ConnectionStateNone
 //@   ensures [C10] D3-counter: !(@K() in h.connectionAttemptCounter)
 //@   ensures [C15] C2-others: @RSFRAME(h) && (forall j: string :: j != @K() ==> $Trusted[j] == old($Trusted[j]))
 //@   atcall ServicePairingDetailUpdate [C15] C3-callback: $0 == @K()
@@ -104,7 +104,8 @@ package hub
 //@ func (h *Hub).HandleConnectionClosed(connection, handshakeCompleted) entry [C11]
 //@   requires connection != nil
 //@   ensures [C11] F2-forget: old(@CK() in h.connections) && old(h.connections[@CK()]).$dataHandler == connection.$dataHandler ==> !(@CK() in h.connections)
-//@   ensures [C11] F2-keep: !(old(@CK() in h.connections) && old(h.connections[@CK()]).$dataHandler == connection.$dataHandler) ==> (@CK() in h.connections) == old(@CK() in h.connections) && h.connections[@CK()] == old(h.connections[@CK()])
+// (cancel, unpair and disconnect find the live connection through this registry: C01 and C10 rest on F2-keep too)
+//@   ensures [C11,C01,C10] F2-keep: !(old(@CK() in h.connections) && old(h.connections[@CK()]).$dataHandler == connection.$dataHandler) ==> (@CK() in h.connections) == old(@CK() in h.connections) && h.connections[@CK()] == old(h.connections[@CK()])
 //@   ensures [C11] F2-others: forall j: string :: j != @CK() ==> (j in h.connections) == (j in old(h.connections)) && h.connections[j] == old(h.connections[j])
 //@   ensures [C11] F2-counter: handshakeCompleted && old(@CK() in h.connections) ==> !(@CK() in h.connectionAttemptCounter)
 //@   atcall RemoteSKIDisconnected [C11] F2-notify: $0 == @CK()
@@ -210,6 +211,10 @@ package hub
 
 //@ func (h *Hub).Shutdown() entry [C10,C11,C08]
 //@   ensures [C10] D5-flag: h.isShutdown
+// the flag is raised before discovery stops and before the snapshot of connections is closed: a dial that slipped in
+// later would create a connection this Shutdown never closes
+//@   atcall Shutdown [C10] D5-flag-first: h.isShutdown
+//@   atcall CloseConnection [C10] D5-flag-first: h.isShutdown
 //@   modifies *
 //@ loop (h *Hub).Shutdown #0
 //@   invariant h.connections != nil && (forall k: string :: k in h.connections ==> h.connections[k] != nil) && (forall i: int :: 0 <= i && i < len(connections) ==> connections[i] != nil)
@@ -219,6 +224,9 @@ package hub
 //@   requires @HUBINV(h) && entry != nil
 //@   ensures @HUBINV(h)
 //@   modifies h.connectionAttemptRunning[ski], h.connectionAttemptCounter[ski], h.remoteServices[norm(ski)]
+// the delayed pairing-detail report: a goroutine body of its own (every `go` callee needs a contract)
+//@ closure (h *Hub).HandleShipHandshakeStateUpdate$1 [C08]
+//@   requires @HUBINV(h)
 //@ closure (h *Hub).coordinateConnectionInitations$1
 //@   requires @HUBINV(h) && entry != nil
 // the delay table has entries and every range is non-empty: established by the package initialiser (verified),
